@@ -250,7 +250,23 @@ func MacroizeRagged(r Rnd, tree []*Dir, maxMacros int, ragged bool) (out []*Dir,
 		for to < len(*list) && inMacroOK((*list)[to]) && (*list)[to].Kw != "PASTE" && (to == from || chance(r, 2, 3)) {
 			to++
 		}
-		if ragged && parent == nil && chance(r, 1, 2) {
+		pair := false
+		if ragged && parent == nil && chance(r, 1, 4) {
+			// an URL group in its implicit form directly followed by a method with its own path: inside the macro body the
+			// method has to leave the URL's context for the macro's, not for the root
+			var cand []int
+			for i := lo; i+1 < len(*list); i++ {
+				if d, n := (*list)[i], (*list)[i+1]; d.Kw == "URL" && len(d.Children) > 0 && d.Explicit != "yes" && isMethodKw(n.Kw) && len(n.Params) > 0 {
+					cand = append(cand, i)
+				}
+			}
+			if len(cand) > 0 {
+				i := cand[r.Intn(len(cand))]
+				from, to, pair = i, i+2, true
+				(*list)[i].Explicit = "no"
+			}
+		}
+		if !pair && ragged && parent == nil && chance(r, 1, 2) {
 			// prefer a run that ends with an URL group, the shape that can be left open (openLastURL)
 			var cand []int
 			for i := lo; i < len(*list); i++ {
